@@ -14,6 +14,11 @@ Inductive fee_type :=
 
 Record fee_info := { fi_recipient : string; fi_type : option fee_type }.
 
+(* the orbiter's own accounts may not be paid fees: a fee to the module account would stay there, one
+   to the dust collector could create a base account at that address (DESIGN 8, item 14) *)
+Definition module_owned (a : string) : bool :=
+  String.eqb a orbiter_address_hex || String.eqb a dust_collector_address_hex.
+
 (* FeeInfo.Validate *)
 Definition fee_info_valid (e : env) (fi : option fee_info) : bool :=
   match fi with
@@ -29,7 +34,7 @@ Definition fee_info_valid (e : env) (fi : option fee_info) : bool :=
       | Some (FBps v) => (0 <? v) && (v <=? bps_normalizer)     (* v is a uint32: v <> 0 *)
       | Some FBpsNil | Some FAmountNil => false
       end
-      && match e_bech32 e (fi_recipient f) with Some _ => true | None => false end
+      && match e_bech32 e (fi_recipient f) with Some a => negb (module_owned a) | None => false end
   end.
 
 (* FeeAttributes.Validate (attrs = None: nil pointer) *)
